@@ -408,6 +408,18 @@ inline std::vector<TGraph> structured_families() {
         g.edges = {{0, 1}, {1, 2}, {2, 3}, {3, 0}, {0, 2}, {1, 3}, {4, 0}, {4, 1}, {4, 2}, {4, 3}};
         g.w = {1, 1, 2, 3, 3, 4, 20, 20, 20, 20}; v.push_back(g);
     }
+    // a cut vertex of high degree that lies on NO cycle (bridged to several cycles): greedy_fvs may pick it first, and its tree
+    // then has no candidate at all - the regime in which per-tree bookkeeping of the collection builders shows (seed S56)
+    for (int k = 3; k <= 4; k++) for (int hub_pos = 0; hub_pos < 2; hub_pos++) {
+        TGraph g; g.n = 3 * k + 1; g.tag = std::string("hub-bridged-to-") + std::to_string(k) + "-triangles" + (hub_pos ? "-hub-mid" : "-hub-first");
+        int hub = hub_pos ? 4 : 0; auto id = [&](int i) { return i < hub ? i : i + 1; };
+        for (int c = 0; c < k; c++) {
+            int a = id(3 * c), b = id(3 * c + 1), d = id(3 * c + 2);
+            g.edges.push_back({a, b}); g.w.push_back(1 + c); g.edges.push_back({b, d}); g.w.push_back(2); g.edges.push_back({d, a}); g.w.push_back(1);
+            g.edges.push_back({hub, a}); g.w.push_back(3);
+        }
+        v.push_back(g);
+    }
     {   // heavy Hamiltonian path, light chords
         TGraph g; g.n = 6; g.tag = "heavy-path-light-chords";
         for (int i = 0; i + 1 < 6; i++) { g.edges.push_back({i, i + 1}); g.w.push_back(15); }
